@@ -84,6 +84,7 @@ def kindStr : Option BKind → String
   | some (.c .ovr) => "Covr"
   | some (.c .any) => "Cany"
   | some (.c (.sig _)) => "Csig"
+  | some (.c (.func _ _)) => "Cany"
 
 def parseOptNat (s : String) : Option (Option Nat) :=
   if s == "n" then some none else s.toNat?.map some
@@ -110,7 +111,25 @@ def parseEsig (s : String) : Option (List (String × Expect)) :=
       | _ => none
     if nodupStrs (l.map (·.1)) then pure l else none
 
+/-- `a,b=,c` : names, a trailing `=` marks a default -/
+def parseParams (s : String) : Option (List (String × Bool)) :=
+  if s == "-" || s == "" then some []
+  else some ((s.splitOn ",").map fun x =>
+    match x.toList.reverse with
+    | '=' :: r => (String.ofList r.reverse, true)
+    | _ => (x, false))
+
+/-- `func:<unpack 0|1>:<pos>:<varargs 0|1>:<kwonly>:<varkw 0|1>` -/
+def parseFunc (s : String) : Option CCls :=
+  match s.splitOn ":" with
+  | ["func", u, pos, va, kwo, vk] => do
+    let pos ← parseParams pos
+    let kwo ← parseParams kwo
+    pure (.func { pos := pos, varargs := va == "1", kwonly := kwo, varkw := vk == "1" } (u == "1"))
+  | _ => none
+
 def parseCls (s : String) : Option CCls :=
+  if s.startsWith "func:" then parseFunc s else
   match s.toList with
   | 's' :: 'i' :: 'g' :: ':' :: r => CCls.sig <$> parseEsig (String.ofList r)
   | _ =>
@@ -207,6 +226,23 @@ def handle (d : DState) : List String → DState × String
       | .error e => (d, errStr e)
       | .ok l => (d, "+".intercalate (l.map fun p =>
           p.1 ++ "=" ++ (match p.2 with | none => "n" | some k => toString k)))
+  | ["chk", n] =>
+    match parseName n with
+    | none => (d, "bad-op")
+    | some n =>
+      match d.c.kind n with
+      | some (.c cls) =>
+        match expectedSig cls with
+        | none => (d, "bad-op")
+        | some esig =>
+          match checkSignatureD d.c n esig with
+          | .error e => (d, errStr e)
+          | .ok none => (d, "ok")
+          | .ok (some (.names u m)) => (d, "err ValueError names u=" ++ renderNames u ++ " m=" ++ renderNames m)
+          | .ok (some (.values l)) =>
+            (d, "err ValueError values " ++ ",".intercalate (l.map fun x => "." ++ x))
+          | .ok (some (.malformed k)) => (d, "err ValueError malformed ." ++ k)
+      | _ => (d, "bad-op")
   | ["foreign", names] =>
     -- blocks that are NOT in this circuit but have got output connections from it
     match (splitField names ",").mapM parseName with
